@@ -24,9 +24,9 @@ MANIFEST = dict(
          "with the corollaries alias_unaffected, call_leaves_argument, closure_sees_variable_not_value. The spec is tied to /repo on "
          "every run by random and exhaustive-short histories over aliased lists, dicts (with/without default), strings, vectors, bytes "
          "and struct instances, compared after every statement; the machine is tied to /repo by C02's Rc-graph comparison.",
-    note="Theorems cover the fragment `frag` (slot assignment, `every` assignment through slices, op-assign with append/++/+/|./-., "
-         "pop/remove/consume, swap, for-loops, update expressions, mutating calls, getter closures): the builtins || and |.. as "
-         "op-assign operators are NOT covered by the theorems, only by the correspondence (notes/C01.md). Trusted: Coq kernel; hand-written machine "
+    note="Theorems cover the fragment `frag` (slot assignment, `every` assignment through slices, op-assign with append/++/+/|./-./||/|.., "
+         "pop/remove/consume, swap, for-loops, update expressions, mutating calls, getter closures), i.e. every form of the statement "
+         "language except non-`every` slice assignment (todo!() in the interpreter, F11). Trusted: Coq kernel; hand-written machine "
          "Rc/Cow.v and spec Rc/ValueSem.v (tie to the code is differential testing on generated histories + C02's graph isomorphism); "
          "extraction + OCaml runner; Rust harness; Python generator/renderer. Builtins other than the consuming ones are outside the model.",
     design="6-C01")
